@@ -56,6 +56,22 @@ def corpus(chk):
         args = [rng.choice(CL.ARGS) for _ in range(na)]
         kw = [(n, rng.choice(CL.ARGS)) for n in rng.sample(['a', 'bb', 'key'], rng.choice([0, 1, 2]))]
         out.append(('pretty_call', CL.Carrier(CL.K, args, kw, True, 'pairs')))
+    # the same long string at positions whose start column coincides under different indent settings (depth 2 at
+    # indent 2 = depth 1 at indent 4), and long str / bytes subclass instances at the top level (column 0 under every
+    # indent): anything remembered about a string between calls must not carry the indent setting along
+    long_s = 'lorem ipsum dolor sit amet ' * 6
+    long_b = b'lorem ipsum dolor sit amet ' * 6
+    for s_ in (long_s, long_b):
+        out.append(('coinciding-columns', [[s_, 'x'], s_, 'y']))
+        out.append(('coinciding-columns', {'k': [s_, 1], 'j': s_, 'i': [[s_]]}))
+        out.append(('coinciding-columns', ([[[s_, 0]], (s_, 1)], s_, 2)))
+    for cls, (qual, kind) in S.ALL.items():
+        if kind in ('str', 'bytes') and cls is not getattr(S, 'IE', None):
+            try:
+                out.append(('subclass-top', cls(long_s if kind == 'str' else long_b)))
+                out.append(('subclass-top', [cls(long_s if kind == 'str' else long_b), 1]))
+            except Exception:
+                pass
     # commented values whose content depends on the OTHER settings (key order, truncation, depth): the variant the
     # layout picks (comment at the end of the line / on a line of its own) must not change that content
     c = P.comment
@@ -101,6 +117,11 @@ def check_c03(chk, args):
             widths = sorted(set(rng.sample(range(1, 201), 25) + [1, 2, 3, 200]))
         for w in widths:
             cfgs.append((w, rng.choice([1, 10, max(1, w // 2), w, 200]), rng.choice([1, 2, 3, 4, 5, 6, 7, 8])))
+        if kind in ('coinciding-columns', 'subclass-top', 'subclass', 'adversarial-string') or vi % 5 == 0:
+            # the same width and ribbon under every indent, one after the other
+            for (w, rw) in ((79, 71), (40, 40), (30, 200)):
+                for ind in (4, 2, 8, 1, 3, 6, 5, 7):
+                    cfgs.append((w, rw, ind))
         for (w, rw, ind) in cfgs:
             nprints += 1
             desc = {'kind': kind, 'value': repr(v)[:200], 'config': {'width': w, 'ribbon_width': rw, 'indent': ind},
